@@ -1,0 +1,82 @@
+// Copyright © 2022-2026 Obol Labs Inc. Licensed under the terms of a Business Source License 1.1
+
+//go:build verif
+
+package scheduler
+
+import (
+	"context"
+	"slices"
+	"time"
+
+	"github.com/jonboulle/clockwork"
+
+	"github.com/obolnetwork/charon/app/eth2wrap"
+	"github.com/obolnetwork/charon/core"
+)
+
+// This file exposes unexported entry points of the scheduler to the external verification
+// harness. It adds no behaviour.
+
+// NewVerif is NewForT without the *testing.T: a scheduler with an injectable clock and delay
+// function (the delay function receives the not-before instant computed by delaySlotOffset).
+func NewVerif(clock clockwork.Clock, delay func(duty core.Duty, deadline time.Time) <-chan time.Time,
+	builderRegProvider BuilderRegistrationProvider, eth2Cl eth2wrap.Client, builderEnabled bool,
+) (*Scheduler, error) {
+	s, err := New(builderRegProvider, eth2Cl, builderEnabled)
+	if err != nil {
+		return nil, err
+	}
+
+	s.clock = clock
+	s.delayFunc = delay
+
+	return s, nil
+}
+
+// NewSlotTickerVerif exposes newSlotTicker.
+func NewSlotTickerVerif(ctx context.Context, eth2Cl eth2wrap.Client, clock clockwork.Clock) (<-chan core.Slot, error) {
+	return newSlotTicker(ctx, eth2Cl, clock)
+}
+
+// HandleSlotVerif executes what Run does for one slot received from the slot ticker
+// (emitCoreSlot followed by scheduleSlot) in the caller's goroutine.
+func (s *Scheduler) HandleSlotVerif(ctx context.Context, slot core.Slot) {
+	s.emitCoreSlot(ctx, slot)
+	s.scheduleSlot(ctx, slot)
+}
+
+// SnapshotVerif is a read-only copy of the scheduler's duty resolution state.
+type SnapshotVerif struct {
+	ResolvedEpoch uint64
+	Duties        map[core.Duty][]core.PubKey // pubkeys of each stored definition set
+	DutiesByEpoch map[uint64][]core.Duty
+}
+
+// SnapshotVerif returns a read-only copy of resolvedEpoch, duties (keys and pubkeys) and dutiesByEpoch.
+func (s *Scheduler) SnapshotVerif() SnapshotVerif {
+	s.dutiesMutex.RLock()
+	defer s.dutiesMutex.RUnlock()
+
+	resp := SnapshotVerif{
+		ResolvedEpoch: s.resolvedEpoch,
+		Duties:        make(map[core.Duty][]core.PubKey),
+		DutiesByEpoch: make(map[uint64][]core.Duty),
+	}
+
+	for duty, defSet := range s.duties {
+		pks := make([]core.PubKey, 0, len(defSet))
+		for pk := range defSet {
+			pks = append(pks, pk)
+		}
+
+		slices.Sort(pks)
+		resp.Duties[duty] = pks
+	}
+
+	for epoch, duties := range s.dutiesByEpoch {
+		resp.DutiesByEpoch[epoch] = slices.Clone(duties)
+	}
+
+	return resp
+}
